@@ -292,3 +292,153 @@ def run(ctx, report=False):
                 ctx.disagree("mp4 file %s" % case.get("op"), case, model="%s len=%d first-difference-at=%d" % (mst, len(mb), j),
                              impl="%s len=%d" % (st, len(extra)))
     return len(reqs)
+
+
+# ---------------------------------------------------------------------------------------------------------------------
+# C19 / C06 at the file-operation level: MP4Tags.save on a fault-injecting / capacity-limited file object against the
+# FileM program `saveEntryM` (lean/MutagenModel/Model/Container/Mp4M.lean; Props/C19_Mp4.lean, Props/C06_Mp4.lean)
+
+_BUF_NAMES = ("resize_file", "move_bytes", "insert_bytes", "delete_bytes", "resize_bytes")
+
+
+class _Buffers(object):
+    """substitute a small copy buffer for the 1 MiB default of the _util functions (as harness/props/c19.py does)"""
+
+    def __init__(self, size):
+        from mutagen import _util
+        self.u = _util
+        self.size = size
+        self.funcs = [getattr(_util, n) for n in _BUF_NAMES]
+        self.saved = [f.__defaults__ for f in self.funcs]
+
+    def __enter__(self):
+        if self.size is not None:
+            for f, d in zip(self.funcs, self.saved):
+                if d:
+                    f.__defaults__ = tuple(self.size if x == self.u._DEFAULT_BUFFER_SIZE else x for x in d)
+        return self
+
+    def __exit__(self, *a):
+        for f, d in zip(self.funcs, self.saved):
+            f.__defaults__ = d
+
+
+def _tags_for(kind, rng):
+    """(MP4Tags to save, its rendered ilst, padding name, padding callback)"""
+    from mutagen.mp4 import MP4, MP4Tags
+    if kind == "delete":
+        t = MP4Tags()
+        return t, render_ilst(t), "0", (lambda info: 0)
+    other = MP4(io.BytesIO(GOOD))
+    other.tags["\xa9cmt"] = ["c" * rng.choice([0, 5, 40, 300])]
+    pad = rng.choice(["default", "0", "0", "7", "100"])
+    return other.tags, render_ilst(other.tags), pad, (None if pad == "default" else (lambda info, n=int(pad): n))
+
+
+def run_faults(ctx, want=("cap", "io", "short")):
+    """for generated files x {delete, save of other tags}: one clean run (the file-object calls of the real code after
+    `Atoms(fileobj)` must be exactly the model's log), then every remaining capacity 0..growth x leak, an IOError at every
+    modelled call index, short reads at every modelled read — real mutagen on `FaultFile` against the model: same outcome
+    class, same bytes left.  Returns the number of comparisons."""
+    from fobj import FaultFile
+    from mutagen import MutagenError
+    rng = ctx.rng
+    reqs = []
+    nfiles = ctx.budget(60, 500)
+    tried = 0
+    while nfiles > 0 and tried < 20000:
+        tried += 1
+        data, label = gen_file(rng)
+        if len(data) > 700 or "deep" in label:
+            continue
+        kind = rng.choice(["delete", "save", "save"])
+        bsize = rng.choice([None, None, 5, 32])
+        tags, ilst, pad, padf = _tags_for(kind, rng)
+        base = {"layout": label, "op": kind, "pad": pad, "buffer": bsize, "data": hx(data)}
+        with _Buffers(bsize):
+            ref = FaultFile(data)
+            k0, r0 = timed(lambda: tags.save(ref, padding=padf), 20)
+            if k0 == "hang":
+                ctx.violation("mp4file:faults:hang", "did not finish", base); continue
+            ref_log = list(ref.log); ref_bytes = ref.getvalue()
+            st0 = "ok" if k0 == "ok" else classify(r0)
+            # the model's clean run; its log must be the tail of the real log
+            Barg = "" if bsize is None else " B=%d" % bsize
+            if not ctx.model_ok():
+                return 0
+            probe = ctx.driver.ask(["mp4 op=m data=%s ilst=%s pad=%s%s" % (hx(data), hx(ilst), pad, Barg)])[0]
+            if probe.startswith("bad-op"):
+                ctx.hist["model:not-wired"] += 1
+                return 0
+            pst, pf = parse_fields(probe)
+            mlog = [] if pf.get("log", "-") == "-" else pf["log"].split(",")
+            n0 = len(ref_log) - len(mlog)
+            if n0 < 0 or (mlog and n0 == 0):
+                ctx.disagree("mp4 faults: log length", base, model=probe[:200], impl=",".join(ref_log)[-200:]); continue
+            # where the parse left the file: the position get_size() restores
+            pos = 0
+            tail = ref_log[n0:]
+            if len(tail) >= 4 and tail[0] == "t" and tail[1] == "e" and tail[2] == "t" and tail[3].startswith("s"):
+                pos = int(tail[3][1:])
+            line0 = "mp4 op=m data=%s ilst=%s pad=%s%s pos=%d" % (hx(data), hx(ilst), pad, Barg, pos)
+            ctx.hist["mp4faults:clean:" + st0] += 1
+            ctx.hist["mp4faults:modelled-calls"] += len(mlog)
+            reqs.append((line0, (st0, ref_bytes, tail), dict(base, fault="none")))
+            if not mlog:
+                continue            # the save stopped before its first file-object call (AtomError, no moov, …)
+            nfiles -= 1
+            growth = len(ref_bytes) - len(data)
+            plans = []
+            if "cap" in want and growth > 0 and st0 == "ok":
+                caps = list(range(growth + 1)) if growth <= ctx.budget(24, 400) else sorted(set([0, 1, growth // 2, growth - 1, growth] + [rng.randrange(growth) for _ in range(8)]))
+                for r in caps:
+                    for leak in ((0, 3) if r % 2 == 0 else (0,)):
+                        plans.append(("cap", r, leak))
+            if "io" in want:
+                idx = list(range(len(mlog))) if len(mlog) <= ctx.budget(45, 400) else sorted(rng.sample(range(len(mlog)), 30))
+                plans += [("io", j, None) for j in idx]
+            if "short" in want:
+                for j, c in enumerate(tail):
+                    if c.startswith("r") and c[1:].isdigit() and int(c[1:]) > 0:
+                        for k in sorted({0, 1, int(c[1:]) // 2}):
+                            if k < int(c[1:]):
+                                plans.append(("short", j, k))
+            for what, a, b in plans:
+                if what == "cap":
+                    f = FaultFile(data, cap=len(data) + a, leak=b)
+                    arg = " cap=%d leak=%d" % (len(data) + a, b)
+                elif what == "io":
+                    f = FaultFile(data, fail_at=n0 + a)
+                    arg = " fail=%d:io" % a
+                else:
+                    f = FaultFile(data, short=(n0 + a, b))
+                    arg = " short=%d:%d" % (a, b)
+                t2, _, _, _ = (tags, None, None, None)
+                k, r = timed(lambda: t2.save(f, padding=padf), 20)
+                case = dict(base, fault=what, index_or_capacity=a, leak_or_short=b, growth=growth, first_modelled_call=n0)
+                if k == "hang":
+                    ctx.violation("mp4file:faults:hang", "did not finish", case); continue
+                st = "ok" if k == "ok" else classify(r)
+                after = f.getvalue()
+                ctx.case(key=("mp4faults", label, kind, what, a, b, len(data)), nontrivial=True, modelled=True)
+                ctx.hist["mp4faults:%s:%s" % (what, st)] += 1
+                if st not in ("ok", "err:mutagen"):
+                    ctx.violation("mp4file:faults:%s:%s" % (what, type(r).__name__), "%s escaped: %s" % (type(r).__name__, str(r)[:80]), case)
+                if what == "cap" and st != "ok" and after != data:
+                    ctx.violation("mp4file:faults:file-modified-on-enospc", "the file changed although the enlargement failed", case)
+                if what == "cap" and a >= growth and st != "ok":
+                    ctx.violation("mp4file:faults:fails-with-enough-space", "save failed although the growth fits", case)
+                reqs.append((line0 + arg, (st, after, None), case))
+    if ctx.model_ok() and reqs:
+        answers = ctx.driver.ask([r[0] for r in reqs])
+        for (line, (st, after, tail), case), ans in zip(reqs, answers):
+            ctx.traces_validated += 1
+            mst, mf = parse_fields(ans)
+            if mst != st or unhx(mf.get("data", "-")) != after:
+                ctx.disagree("mp4 file-operation model (%s)" % case.get("fault"), case, model=("%s data=%s" % (mst, mf.get("data", "")))[:260],
+                             impl=("%s data=%s" % (st, hx(after)))[:260])
+            elif tail is not None:
+                mlog = [] if mf.get("log", "-") == "-" else mf["log"].split(",")
+                if mlog != tail:
+                    ctx.disagree("mp4 file-operation model: order of the file-object calls", case, model=",".join(mlog)[:300], impl=",".join(tail)[:300])
+    return len(reqs)
